@@ -175,7 +175,7 @@ CHECKS['C17'] = dict(
     design='7 (C17)')
 CHECKS['C18'] = dict(
     technique='Lean 4 theorem that any interleaving of the steps of two _run machines equals their sequential runs (all state is per call) + history differential: every call of random histories against the same call alone on a freshly compiled module, threads, re-entrant and raising callbacks, later Grammar() calls',
-    text=('Proof: C18_interleaving (for every schedule, each of two machines ends where it would running alone: a step reads and writes only its own call state), with C07_memo_write_once and C08_match_outcome describing the per-call outcome. '
+    text=('Proof: C18_interleaving (for every schedule, each of two machines ends where it would running alone: a step reads and writes only its own call state), C18_interleaving_any_number (the same for any number of calls in flight under any schedule) and C18_nested_call_is_invisible (a nested parse run to its end at a callback point leaves the outer call where uninterrupted steps take it), with C07_memo_write_once and C08_match_outcome describing the per-call outcome. '
           'The model has no shared state by construction, so the theorems are the oracle, not evidence about the code. Tie: random histories on one module (all entry points; texts built at run time with equal lengths so that freed texts are reused; '
           'failing calls, calls raising from inline Python, nested parses started from inline Python; gc and Grammar() calls in between) - every outcome incl. line/column equals the outcome alone on a fresh module; 2-4 threads with a 1e-6 s switch interval; '
           'modules extending or reusing the name of an existing module must not alter it. PARTIAL: thread schedules and the GIL are runtime behaviour, sampled only.'),
